@@ -132,6 +132,15 @@ def _work(res, p):
         res.ob(0, 1, "concrete-structure")
     if d.n_qubits != c.n_qubits or not c.operations or not p.get("unitary", True):
         return
+    # numeric twin (ground, no solver): every remaining symbol bound to a number, real numpy matrices, distance from proportionality
+    if p["label"].startswith(("numeric", "ctlz")):
+        res.d["ground_instances"] += 1
+        res.ob(1)
+        bad = _numeric_twin_bad(p)
+        if bad:
+            _cand(res, "same-action-numeric", f"decomposition of [{CS.spec_str(specs)}] with rules {p['rules']} at numeric angles: {bad}", p)
+        else:
+            res.ob(0, 1, "ground-numeric")
     U, Ud = c.to_unitary(), d.to_unitary()
     P = Prover(res)
     piv = _pick_pivots(P, U)
@@ -140,6 +149,24 @@ def _work(res, p):
     if fv:
         _cand(res, "same-action-up-to-phase", f"decomposition of [{CS.spec_str(specs)}] with rules {p['rules']} is not proportional to the original (minor {fv[0]})", p, fv[1])
     res.sample({"circuit": CS.spec_str(specs), "rules": p["rules"], "n": c.n_qubits})
+
+
+def _numeric_twin_bad(p):
+    from orquestra.quantum.decompositions import decompose_orquestra_circuit
+
+    worst = None
+    for vals in ({"th0": 0.37, "th1": -1.9, "th2": 7.3}, {"th0": -2.6, "th1": 6.9, "th2": -0.45}):
+        c = CS.circuit_from_spec([tuple(s) for s in p["specs"]], p.get("n"))
+        c = c.bind({s: vals.get(str(s), 0.61) for s in c.free_symbols})
+        d = decompose_orquestra_circuit(c, rules_from_spec(p["rules"]))
+        X, Y = np.array(d.to_unitary(), dtype=complex), np.array(c.to_unitary(), dtype=complex)
+        if X.shape != Y.shape:
+            return f"shape {X.shape} vs {Y.shape}"
+        k = np.vdot(Y, X) / np.vdot(Y, Y)
+        dist = float(np.abs(X - k * Y).max())
+        if dist > 1e-9:
+            worst = f"distance from a multiple of the original {dist:.3g} at {vals}"
+    return worst
 
 
 SPECIAL = [0.0, math.pi, math.pi / 2, 2 * math.pi, -math.pi, 0.3, 1.7]
@@ -221,6 +248,9 @@ def replay(data):
     vals = {k: float(v) for k, v in (inp.get("values") or {}).items()}
     p = {k: v for k, v in inp.items() if k not in ("clause", "values")}
     try:
+        if clause == "same-action-numeric":
+            bad = _numeric_twin_bad(p)
+            return bool(bad), bad or "ok"
         if clause == "decomposition-structure":
             r = Result("replay")
             _work(r, dict(p, label="replay"))
